@@ -199,4 +199,10 @@ def rule_until(ctx):
     decide(ctx, "O18.4", "--until mapping", APP + ".set_options", cell, min_cells=7)
 
 
-RULES = [rule_main, rule_process, rule_until]
+def rule_oserror(ctx):
+    from .c10 import rule_oserror_stays_oserror
+
+    rule_oserror_stays_oserror(ctx)
+
+
+RULES = [rule_main, rule_process, rule_until, rule_oserror]
